@@ -2,7 +2,8 @@
 From Coq Require Import List ZArith QArith Qcanon Bool Arith.
 From Dimod Require Import Base.Util Model.Poly Model.HPoly Model.Samples
   Proofs.PolyFacts Proofs.HPolyFacts Proofs.SamplesFacts.
-From Dimod Require Model.Adj Proofs.AdjEnergy.
+From Dimod Require Model.Adj Model.Expr Proofs.AdjEnergy Model.EnergyCy Proofs.EnergyCyFacts.
+From Dimod Require Model.DqmLoop Proofs.DqmLoopFacts Model.HPolyLoop Proofs.HPolyLoopFacts Model.PyBqm Proofs.PyBqmFacts.
 Import ListNotations.
 Open Scope Qc_scope.
 
@@ -86,6 +87,172 @@ Theorem C01_lower_triangle_walk :
 Proof. exact AdjEnergy.energy_adj_abs. Qed.
 Print Assumptions C01_lower_triangle_walk.
 
+(* ---------- code-shaped evaluation loops (deepening round) ---------- *)
+
+(* the accumulator loop of cyQMBase._energies / abc.h energy (en += ..., break at index > u) *)
+Theorem C01_energy_loop_is_polynomial :
+  forall (m : Adj.qm) (val : nat -> Qc),
+    Adj.Inv m -> EnergyCy.energy_loop m val = energy (Adj.abs m) val.
+Proof. exact EnergyCyFacts.energy_loop_abs. Qed.
+Print Assumptions C01_energy_loop_is_polynomial.
+
+(* cyqmbase_template.pyx.pxi:_energies - the sample matrix re-indexed through the label list
+   (qm_to_sample[vi] = labels.index(variables.at(vi))) and the walk run per row - is the
+   polynomial-level `energies` of the object's polynomial over labels: same values, and
+   rejected exactly when a model label is missing *)
+Theorem C01_energies_cy_eq_spec :
+  forall (m : Adj.qm) (vars ls : list label) (rows : list (list Qc)),
+    Adj.Inv m -> length vars = Adj.nvars m ->
+    EnergyCy.energies_cy m vars ls rows = energies (EnergyCy.qm_poly_labels m vars) vars ls rows.
+Proof. exact EnergyCyFacts.energies_cy_eq_spec. Qed.
+Print Assumptions C01_energies_cy_eq_spec.
+
+(* any label list containing every model label (any order, extra labels allowed): the result is
+   energy (abs m) at the row read through the labels *)
+Theorem C01_energies_cy_value :
+  forall (m : Adj.qm) (vars ls : list label) (rows : list (list Qc)),
+    Adj.Inv m -> length vars = Adj.nvars m -> (forall v, In v vars -> In v ls) ->
+    EnergyCy.energies_cy m vars ls rows =
+    Some (map (fun row => energy (Adj.abs m) (fun i => row_value ls row (nth i vars 0%nat))) rows).
+Proof. exact EnergyCyFacts.energies_cy_value. Qed.
+Print Assumptions C01_energies_cy_value.
+
+Theorem C01_energies_cy_rejects_iff :
+  forall (m : Adj.qm) (vars ls : list label) (rows : list (list Qc)),
+    Adj.Inv m -> length vars = Adj.nvars m ->
+    (EnergyCy.energies_cy m vars ls rows = None <-> exists v, In v vars /\ ~ In v ls).
+Proof. exact EnergyCyFacts.energies_cy_rejects_iff. Qed.
+Print Assumptions C01_energies_cy_rejects_iff.
+
+Theorem C01_qm_polynomial_mentions_own_labels :
+  forall (m : Adj.qm) (vars : list label),
+    Adj.Inv m -> length vars = Adj.nvars m -> mentions_only (EnergyCy.qm_poly_labels m vars) vars.
+Proof. exact EnergyCyFacts.qm_poly_labels_mentions. Qed.
+Print Assumptions C01_qm_polynomial_mentions_own_labels.
+
+(* expression.h Expression::energy: sub-sample in the expression's own variables_ order, then the base walk *)
+Theorem C01_expression_energy :
+  forall (e : EnergyCy.xexpr) (s : nat -> Qc),
+    EnergyCyFacts.xexpr_wf e -> EnergyCy.xexpr_energy e s = energy (EnergyCy.xexpr_poly e) s.
+Proof. exact EnergyCyFacts.xexpr_energy_eq. Qed.
+Print Assumptions C01_expression_energy.
+
+(* cyexpression.pyx:_energies (reindex through parent labels, sub-sample, zero-variable branch) *)
+Theorem C01_expression_energies_cy_eq_spec :
+  forall (e : EnergyCy.xexpr) (pvars ls : list label) (rows : list (list Qc)),
+    EnergyCyFacts.xexpr_wf e ->
+    EnergyCy.xexpr_energies_cy e pvars ls rows =
+    energies (EnergyCy.xexpr_poly_labels e pvars) (EnergyCy.xexpr_labels e pvars) ls rows.
+Proof. exact EnergyCyFacts.xexpr_energies_cy_eq_spec. Qed.
+Print Assumptions C01_expression_energies_cy_eq_spec.
+
+(* a variable-free expression returns its offset for every row (the repaired zero-variable branch) *)
+Theorem C01_expression_constant_only :
+  forall (e : EnergyCy.xexpr) (pvars ls : list label) (rows : list (list Qc)),
+    EnergyCyFacts.xexpr_wf e -> EnergyCy.x_vars e = [] ->
+    EnergyCy.xexpr_energies_cy e pvars ls rows = Some (map (fun _ => Adj.off (EnergyCy.x_base e)) rows).
+Proof. exact EnergyCyFacts.xexpr_energies_cy_constant. Qed.
+Print Assumptions C01_expression_constant_only.
+
+(* tie to the expression model of Model/Expr.v (the one the CQM refinement is proved on) *)
+Theorem C01_expression_energy_is_abs_expr :
+  forall (x : EnergyCy.xexpr) (e : Expr.mexpr) (s : nat -> Qc),
+    EnergyCyFacts.xexpr_wf x -> EnergyCy.x_vars x = Expr.e_vars e ->
+    length (Expr.e_lin e) = length (Expr.e_vars e) ->
+    (forall t, energy (Adj.abs (EnergyCy.x_base x)) t = energy (EnergyCy.local_poly e) t) ->
+    EnergyCy.xexpr_energy x s = energy (Expr.abs_expr e) s.
+Proof. exact EnergyCyFacts.xexpr_energy_eq_abs_expr. Qed.
+Print Assumptions C01_expression_energy_is_abs_expr.
+
+(* cydiscrete_quadratic_model.pyx:energies - per variable u: case range check, linear(case_starts[u]+case),
+   walk of the variable adjacency for v <= u adding quadratic(cu, cv) - equals the case-level polynomial
+   at the indicator sample, and raises exactly on an out-of-range case (or a wrong row width) *)
+Theorem C01_dqm_loop_row_eq_poly :
+  forall (d : DqmLoop.dqm) (row : list Z),
+    DqmLoopFacts.dqm_wf d -> DqmLoopFacts.row_ok d row ->
+    DqmLoop.dqm_loop_row d row = Some (energy (Adj.abs (DqmLoop.d_bqm d)) (DqmLoop.ind d row)).
+Proof. exact DqmLoopFacts.dqm_loop_row_eq_poly. Qed.
+Print Assumptions C01_dqm_loop_row_eq_poly.
+
+Theorem C01_dqm_loop_row_none_iff :
+  forall (d : DqmLoop.dqm) (row : list Z),
+    DqmLoop.dqm_loop_row d row = None <->
+    length row <> DqmLoop.num_variables d \/
+    exists u, (u < DqmLoop.num_variables d)%nat /\
+              (DqmLoop.sample_at row u < 0 \/ Z.of_nat (DqmLoop.num_cases d u) <= DqmLoop.sample_at row u)%Z.
+Proof. exact DqmLoopFacts.dqm_loop_row_none_iff. Qed.
+Print Assumptions C01_dqm_loop_row_none_iff.
+
+Theorem C01_dqm_loop_eq_poly :
+  forall (d : DqmLoop.dqm) (rows : list (list Z)),
+    DqmLoopFacts.dqm_wf d -> (forall row, In row rows -> DqmLoopFacts.row_ok d row) ->
+    DqmLoop.dqm_loop d rows = Some (map (fun row => energy (Adj.abs (DqmLoop.d_bqm d)) (DqmLoop.ind d row)) rows).
+Proof. exact DqmLoopFacts.dqm_loop_eq_poly. Qed.
+Print Assumptions C01_dqm_loop_eq_poly.
+
+Theorem C01_dqm_loop_none_iff :
+  forall (d : DqmLoop.dqm) (rows : list (list Z)),
+    DqmLoop.dqm_loop d rows = None <-> exists row, In row rows /\ DqmLoop.dqm_loop_row d row = None.
+Proof. exact DqmLoopFacts.dqm_loop_none_iff. Qed.
+Print Assumptions C01_dqm_loop_none_iff.
+
+(* the loop is the existing specification Samples.dqm_energy (polynomial over (variable, case) indicators
+   coded variable*stride+case), rejection included *)
+Theorem C01_dqm_loop_row_eq_samples_spec :
+  forall (d : DqmLoop.dqm) (stride : nat) (row : list Z),
+    DqmLoopFacts.dqm_wf d -> length row = DqmLoop.num_variables d ->
+    (forall u, (u < DqmLoop.num_variables d)%nat -> (DqmLoop.num_cases d u <= stride)%nat) ->
+    DqmLoop.dqm_loop_row d row =
+    dqm_energy (relabel (DqmLoop.code d stride) (Adj.abs (DqmLoop.d_bqm d))) stride (DqmLoop.ncases_list d)
+               (combine (seq 0 (DqmLoop.num_variables d)) row).
+Proof. exact DqmLoopFacts.dqm_loop_row_eq_samples_spec. Qed.
+Print Assumptions C01_dqm_loop_row_eq_samples_spec.
+
+(* the python wrapper discrete_quadratic_model.py:energies (int32 check, reordering through the labels) *)
+Theorem C01_dqm_energies_eq_poly :
+  forall (vars : list label) (d : DqmLoop.dqm) (ls : list label) (rows : list (list Z)),
+    DqmLoopFacts.dqm_wf d -> NoDup ls -> length vars = DqmLoop.num_variables d -> length ls = DqmLoop.num_variables d ->
+    (forall row, In row rows -> length row = length ls) ->
+    forallb (forallb DqmLoop.int32_ok) rows = true ->
+    (forall v, In v vars -> In v ls) ->
+    (forall row, In row rows -> DqmLoopFacts.row_ok d (DqmLoop.reorder_row vars ls row)) ->
+    DqmLoop.dqm_energies vars d ls rows =
+    Some (map (fun row => energy (Adj.abs (DqmLoop.d_bqm d)) (DqmLoop.ind d (DqmLoop.reorder_row vars ls row))) rows).
+Proof. exact DqmLoopFacts.dqm_energies_eq_poly. Qed.
+Print Assumptions C01_dqm_energies_eq_poly.
+
+(* the executable well-formedness test the check evaluates on the observed state implies the hypothesis *)
+Theorem C01_dqm_wf_b_sound : forall d, DqmLoop.dqm_wf_b d = true -> DqmLoopFacts.dqm_wf d.
+Proof. exact DqmLoopFacts.dqm_wf_b_sound. Qed.
+Print Assumptions C01_dqm_wf_b_sound.
+
+(* higherorder/polynomial.py:BinaryPolynomial.energies (product over each term's columns) = HPoly.henergy *)
+Theorem C01_poly_energies_loop_eq_spec :
+  forall (p : hpoly) (ls : list label) (rows : list (list Qc)),
+    (forall t v, In t p -> In v (fst t) -> In v ls) ->
+    HPolyLoop.hp_energies p ls rows = Some (map (fun row => henergy p (row_sample ls row)) rows).
+Proof. exact HPolyLoopFacts.hp_energies_eq_spec. Qed.
+Print Assumptions C01_poly_energies_loop_eq_spec.
+
+Theorem C01_poly_energies_loop_none_iff :
+  forall (p : hpoly) (ls : list label) (rows : list (list Qc)),
+    HPolyLoop.hp_energies p ls rows = None <-> exists t v, In t p /\ In v (fst t) /\ ~ In v ls.
+Proof. exact HPolyLoopFacts.hp_energies_none_iff. Qed.
+Print Assumptions C01_poly_energies_loop_none_iff.
+
+(* pybqm.py pyBQM.energies (dict back-end: dot products over the linear entries and over iter_quadratic,
+   each interaction counted once) is the polynomial-level `energies` of the polynomial the object reports *)
+Theorem C01_pybqm_energies_eq_spec :
+  forall (m : PyBqm.pybqm) (ls : list label) (rows : list (list Qc)),
+    PyBqmFacts.pb_wf m -> NoDup ls ->
+    PyBqm.pb_energies m ls rows = energies (PyBqm.pb_abs m) (PyBqm.pb_vars m) ls rows.
+Proof. exact PyBqmFacts.pb_energies_eq_spec. Qed.
+Print Assumptions C01_pybqm_energies_eq_spec.
+
+Theorem C01_pybqm_wfb_sound : forall m, PyBqm.pb_wfb m = true -> PyBqmFacts.pb_wf m.
+Proof. exact PyBqmFacts.pb_wfb_sound. Qed.
+Print Assumptions C01_pybqm_wfb_sound.
+
 (* non-vacuity *)
 Example C01_example_3cycle :
   as_samples_dicts [([0;1;2]%nat, [qc 0 1; qc 1 1; qc 2 1]); ([1;2;0]%nat, [qc 1 1; qc 2 1; qc 0 1])]
@@ -95,4 +262,10 @@ Proof. vm_compute. reflexivity. Qed.
 Example C01_example_energy :
   energies (mkPoly (qc 1 2) [(0%nat, qc 2 1)] [(0%nat, 0%nat, qc 3 1); (0%nat, 1%nat, qc 5 1)])
            [0;1]%nat [1;0]%nat [[qc 3 1; qc 2 1]] = Some [qc 93 2].
+Proof. vm_compute. reflexivity. Qed.
+
+Example C01_example_cy_loop :
+  EnergyCy.energies_cy
+    (Adj.mkQM [qc 2 1; qc 0 1] [[(0%nat, qc 3 1); (1%nat, qc 5 1)]; [(0%nat, qc 5 1)]] (qc 1 2) [INTEGER; INTEGER])
+    [7; 9]%nat [9; 4; 7]%nat [[qc 2 1; qc 100 1; qc 3 1]] = Some [qc 127 2].
 Proof. vm_compute. reflexivity. Qed.
